@@ -25,15 +25,16 @@ func init() {
 // swap happens exactly when the first round >= tRound-1 is stored, once; afterwards only the new epoch's
 // partials are accepted and the new threshold is used. A misaligned transition time is refused.
 func ZZ_C07_switchPoint() {
-	nw := zzNewNet(3, 2)
+	nw := zzNewNet(4, 3) // old group: members 0..3, threshold 3
 	clk := zzfake.NewClock(zzGenesis + 3*zzPeriodS + 1) // clock in round 4
 	base := memdb.NewStore(100)
 	cbs := NewCallbackStore(zzfake.Logger(), base)
 	client := &zzfake.Client{Clock: clk}
 	h := zzHandler(nw, 0, clk, cbs, client)
-	// new epoch: same group key, new polynomial, threshold 3 of 3
-	newEp := zzfake.Deal(nw.sch, 3, 3, "group-secret", "epoch2")
-	newGroup := zzfake.Group(nw.sch, nw.pairs, 3, nw.group.Period, zzGenesis, newEp, "")
+	// new epoch: same group key, new polynomial, member 3 LEAVES: group {0,1,2}, threshold 2.
+	// (the polynomial is dealt for 4 indices so that a share for the departed index 3 exists under it)
+	newEp := zzfake.Deal(nw.sch, 4, 2, "group-secret", "epoch2")
+	newGroup := zzfake.Group(nw.sch, nw.pairs[:3], 2, nw.group.Period, zzGenesis, newEp, "")
 	newGroup.GenesisSeed = nw.group.GenesisSeed
 	tRound := uint64(6 + zz.Choose("transition.round_offset", 3)) // transition at round 6..8
 	newGroup.TransitionTime = common.TimeOfRound(nw.group.Period, zzGenesis, tRound)
@@ -60,25 +61,36 @@ func ZZ_C07_switchPoint() {
 			zz.Assert("old_group_before_transition", !isNew)
 		} else {
 			zz.Assert("new_group_from_transition_on", isNew)
-			zz.Assert("new_threshold_in_force", h.crypto.GetGroup().Threshold == 3)
+			zz.Assert("new_threshold_in_force", h.crypto.GetGroup().Threshold == 2)
 			zz.Assert("chain_info_unchanged", bytes.Equal(h.crypto.GetInfo().Hash(), zzInfoHash(nw)))
 		}
 	}
 	zz.Assert("switched_exactly_once", switched == 1)
-	// after the switch: a partial made with an OLD share (member 1) is refused, a NEW one is accepted
+	// after the switch: who may contribute is decided by the LIVE group and polynomial
 	clk.Set(zzGenesis + int64(tRound+1)*zzPeriodS + 1)
 	head, _ := cbs.Last(context.Background())
 	r := head.Round + 1
 	prev := head.Signature
-	mk := func(ep *zzfake.Epoch) *proto.PartialBeaconPacket {
+	mk := func(ep *zzfake.Epoch, idx int) *proto.PartialBeaconPacket {
 		msg := nw.sch.DigestBeacon(&common.Beacon{Round: r, PreviousSig: prev})
-		s, _ := nw.sch.ThresholdScheme.Sign(ep.Shares[1], msg)
+		s, _ := nw.sch.ThresholdScheme.Sign(ep.Shares[idx], msg)
 		return &proto.PartialBeaconPacket{Round: r, PreviousSignature: prev, PartialSig: s}
 	}
-	_, errOld := h.ProcessPartialBeacon(context.Background(), mk(nw.ep))
-	zz.Assert("old_epoch_partial_refused_after_switch", errOld != nil && len(h.chain.newPartials) == 0)
-	_, errNew := h.ProcessPartialBeacon(context.Background(), mk(newEp))
-	zz.Assert("new_epoch_partial_accepted_after_switch", errNew == nil && len(h.chain.newPartials) == 1)
+	switch zz.Choose("after_switch.sender", 4) {
+	case 0:
+		_, err := h.ProcessPartialBeacon(context.Background(), mk(nw.ep, 1))
+		zz.Assert("old_epoch_partial_of_remaining_member_refused", err != nil && len(h.chain.newPartials) == 0)
+	case 1:
+		_, err := h.ProcessPartialBeacon(context.Background(), mk(nw.ep, 3))
+		zz.Assert("old_epoch_partial_of_departed_member_refused", err != nil && len(h.chain.newPartials) == 0)
+	case 2:
+		// valid under the NEW polynomial but for the index of the member that left
+		_, err := h.ProcessPartialBeacon(context.Background(), mk(newEp, 3))
+		zz.Assert("departed_index_refused_even_with_new_polynomial", err != nil && len(h.chain.newPartials) == 0)
+	case 3:
+		_, err := h.ProcessPartialBeacon(context.Background(), mk(newEp, 1))
+		zz.Assert("new_epoch_partial_accepted_after_switch", err == nil && len(h.chain.newPartials) == 1)
+	}
 }
 
 func zzInfoHash(nw *zzNet) []byte {
